@@ -22,16 +22,25 @@ func (vOtherErr) Error() string { return "callback failed" }
 func VerifC09Stream() {
 	v := 54460
 	framed := verifChoice("compression", 2) == 1
-	strCol := verifChoice("column", 2) == 1 // 0: ColUInt64 (zero-copy), 1: ColStr
+	kind := verifChoice("column", 3) // 0: ColUInt64 (zero-copy), 1: ColStr, 2: ColEnum (prepared from its Values on every send)
+	strCol, enumCol := kind == 1, kind == 2
+	const enumType = "Enum8('a'=1,'b'=2)"
 	rounds := verifIntRange("rounds", 1, verifParam("maxrounds", 3))
 
 	// live columns and a shadow model of their contents
 	u := new(proto.ColUInt64)
 	s := new(proto.ColStr)
+	e := new(proto.ColEnum)
 	var mu []uint64
 	var ms []string
+	var me []byte // enum model: the raw value of each row
+	enumName := [3]string{"", "a", "b"}
 	appendRow := func() {
-		if strCol {
+		if enumCol {
+			x := byte(1 + verifChoice("ecell", 2))
+			e.Append(enumName[x])
+			me = append(me, x)
+		} else if strCol {
 			x := verifStr("scell", 1)
 			s.Append(x)
 			ms = append(ms, x)
@@ -42,12 +51,18 @@ func VerifC09Stream() {
 		}
 	}
 	snapshot := func() rCol {
+		if enumCol {
+			return rCol{name: "a", typ: enumType, useRaw: true, n: len(me), raw: append([]byte(nil), me...)}
+		}
 		if strCol {
 			return rCol{name: "a", typ: "String", isStr: true, strs: append([]string(nil), ms...)}
 		}
 		return rCol{name: "a", typ: "UInt64", u64: append([]uint64(nil), mu...)}
 	}
 	rowsNow := func() int {
+		if enumCol {
+			return len(me)
+		}
 		if strCol {
 			return len(ms)
 		}
@@ -73,7 +88,9 @@ func VerifC09Stream() {
 	round := 0
 	failed := false
 	q := Query{Body: "INSERT INTO t VALUES", QueryID: "q1"}
-	if strCol {
+	if enumCol {
+		q.Input = proto.Input{{Name: "a", Data: e}}
+	} else if strCol {
 		q.Input = proto.Input{{Name: "a", Data: s}}
 	} else {
 		q.Input = proto.Input{{Name: "a", Data: u}}
@@ -92,11 +109,15 @@ func VerifC09Stream() {
 			appendRow()
 		case 1: // reset, then one new row
 			q.Input.Reset()
-			mu, ms = nil, nil
+			mu, ms, me = nil, nil, nil
 			appendRow()
 		case 2: // overwrite row 0 in place (zero-copy columns alias this memory until flushed)
 			if rowsNow() > 0 {
-				if strCol {
+				if enumCol {
+					x := byte(1 + verifChoice("ecell", 2))
+					e.Values[0] = enumName[x]
+					me[0] = x
+				} else if strCol {
 					x := verifStr("scell", 1)
 					copy(s.Buf[s.Pos[0].Start:s.Pos[0].End], x)
 					ms[0] = x
@@ -108,7 +129,7 @@ func VerifC09Stream() {
 			}
 		case 3: // reset to nothing
 			q.Input.Reset()
-			mu, ms = nil, nil
+			mu, ms, me = nil, nil, nil
 		}
 		switch h.result {
 		case 1:
